@@ -297,6 +297,10 @@ class PluginGroup(Generic[T], metaclass=PluginGroupMeta):
     def get(
         self, key: Union[str, PRX], version: Optional[SemVerTuple] = None
     ) -> Union[Type[T], PRX, None]:
+        # a class that was itself handed out without stated version does not state one either
+        unversioned_key = (
+            version is None and isinstance(key, type) and UndefVersion._is_marked(key)
+        )
         key_, version = plugin_args(key, version)
 
         # retrieve compatible plugin
@@ -305,7 +309,7 @@ class PluginGroup(Generic[T], metaclass=PluginGroupMeta):
         except KeyError:
             return None
 
-        if version is None:
+        if version is None or unversioned_key:
             # no version constraint was passed or inferred -> mark it
             ret = UndefVersion._mark_class(ret)
 
